@@ -17,7 +17,9 @@ RULE = ("direct calls of the real step functions: force_genotypes on random thre
         "aggregate_results / compute_cut_positions (recursive sub-instances included), the same driver with a generated "
         "solver result (generated columns and breakpoints) for the component construction, and the real PhasedVcfWriter "
         "on its output; real `whatshap polyphase` runs on synthetic BAM+VCF (ploidy 2-6, multi-allelic SNVs, indels, "
-        "two samples, collapsed haplotypes, uneven coverage, wrong-dosage genotypes, all -B values, --use-prephasing, "
+        "two samples (sometimes only one of them a target: --sample), collapsed haplotypes, uneven coverage, wrong-dosage "
+        "genotypes, fully and partially missing genotypes of target samples at read-covered variants inside blocks, "
+        "homozygous calls, neighbouring positions with a cut between them, all -B values, --use-prephasing, "
         "--threads 1). A direct case is non-trivial if the step changes something (forcing needed / non-identity "
         "assignment / non-identity permutation / >= 1 sub-instance / >= 2 blocks or cuts); a CLI case if >= 2 variants "
         "are phased; distinct = distinct input.")
@@ -393,7 +395,7 @@ INDIV_CHECKS = {
            "list_eqb (fun a b => Z.eqb (fst a) (fst b) && col_eqb (snd a) (snd b)) (phases_of acc cols) srs && "
            "match sample_out acc cols cuts recs with "
            "| Some mo => list_eqb (fun a b => Z.eqb (fst a) (fst b) && rawcall_eqb (snd a) (snd b)) "
-           "               (map (fun x : Z * call => (fst x, (if snd (fst (snd x)) then fst (fst (snd x)) else sortZ (fst (fst (snd x))), "
+           "               (map (fun x : Z * call => (fst x, (fst (fst (snd x)), "
            "                                       snd (fst (snd x)), snd (snd x)))) mo) outs "
            "| None => false end"),
 }
@@ -470,7 +472,7 @@ def drive_individual(ctx, inst, wd, tag, stub=None):
     for r in outv.records:
         c = r.calls[0]
         gt = [(-1 if a is None else a) for a in (c.gt or ())]
-        outs.append((r.pos, (gt if c.phased else sorted(gt), c.phased, c.ps)))
+        outs.append((r.pos, (gt, c.phased, c.ps)))
     item = dict(acc=acc, cuts=cuts, comps=comps, cols=cols, genos=genos, srs=sorted(sr.items()), recs=recs, outs=outs,
                 rep={"kind": "individual", "inst": inst, "stub": stub}, deep=inst.get("deep", False))
     return ev, item
@@ -558,7 +560,7 @@ def make_cli_spec(rng, ploidy=None, deep=False, adjacent=False):
                     deep=True, nreads=720)
     return dict(k=k, nsamples=rng.choice([1, 2, 2]), nvars=rng.randint(8, 16), seed=rng.randrange(1 << 30),
                 sens=rng.randrange(6), prephase=rng.random() < 0.4, reference=rng.random() < 0.3, deep=False,
-                nreads=rng.randint(14, 30) * k)
+                nreads=rng.randint(14, 30) * k, only_first_sample=rng.random() < 0.4)
 
 
 def build_cli_inputs(spec, wd):
@@ -622,6 +624,20 @@ def build_cli_inputs(spec, wd):
                         g[rng.randrange(k)] = rng.choice(sorted(set(col)))
                         if len(set(g)) > 1:
                             override[(s, c, i)] = "/".join(map(str, sorted(g)))
+                # calls without a genotype at read-covered variants INSIDE the chromosome (neighbours on both sides keep
+                # their genotype, so the variant would sit inside a block): fully missing and partially missing (the
+                # remaining alleles heterozygous, '.' not at the end) - they must pass through untouched
+                if n >= 4:
+                    inner = list(range(1, n - 1))
+                    rng.shuffle(inner)
+                    picks = inner[:2] + [i for i in inner[2:] if rng.random() < 0.08]
+                    for j, i in enumerate(picks):
+                        if j % 2 == 0:
+                            override[(s, c, i)] = "/".join(["."] * k)
+                        else:
+                            g = [str(a) for a in sc.haps[s][c][i]]
+                            g[rng.randrange(max(1, k - 1))] = "."
+                            override[(s, c, i)] = "/".join(g)
                 weights = [rng.choice([1, 1, 2, 3]) for _ in range(k)]
                 L = len(sc.ref[c])
                 hot = [(0, L // 3, 3.0), (L // 3, 2 * L // 3, 0.4), (2 * L // 3, L, 2.0)] if rng.random() < 0.5 else None
@@ -662,7 +678,7 @@ def build_cli_inputs(spec, wd):
     return sc, vcf, bam, ref, planted
 
 
-def accessible_positions(vcf, bam, ref, ploidy):
+def accessible_positions(vcf, bam, ref, ploidy, targets=None):
     """{(chrom, sample): sorted 0-based positions of the read-covered heterozygous variants, or None if polyphase does
     not process the sample on that chromosome} - the preprocessing of run_polyphase with the real readers."""
     from whatshap.vcf import VcfReader
@@ -674,6 +690,9 @@ def accessible_positions(vcf, bam, ref, ploidy):
         with VcfReader(vcf, only_snvs=False, phases=True, genotype_likelihoods=False, ploidy=ploidy, mav=True) as vr:
             for table in vr:
                 for sample in vr.samples:
+                    if targets is not None and sample not in targets:
+                        out[(table.chromosome, sample)] = None
+                        continue
                     gts = table.genotypes_of(sample)
                     het = {i for i, g in enumerate(gts) if not g.is_none() and not g.is_homozygous()}
                     t = deepcopy(table)
@@ -696,6 +715,10 @@ def cli_case(ctx, spec, wd):
     sc, vcf, bam, ref, planted = build_cli_inputs(spec, wd)
     out = os.path.join(wd, "out.vcf")
     args = ["polyphase", "--ploidy", spec["k"], "-B", spec["sens"], "--threads", "1", "-o", out]
+    targets = None
+    if spec.get("only_first_sample") and len(sc.samples) > 1:
+        targets = [sc.samples[0]]                 # the other sample is not a target: it must pass through untouched
+        args += ["--sample", sc.samples[0]]
     if spec["prephase"]:
         args.append("--use-prephasing")
     if spec.get("distrust"):
@@ -708,7 +731,7 @@ def cli_case(ctx, spec, wd):
     if rc != 0:
         ctx.violation("cli:crash", f"whatshap polyphase exits {rc} on generated input {spec}: {se[-400:]}", rep)
         return None
-    acc = accessible_positions(vcf, bam, ref, spec["k"])
+    acc = accessible_positions(vcf, bam, ref, spec["k"], targets)
     fin, fout = vcfabs.parse_vcf(vcf), vcfabs.parse_vcf(out)
     it = vcfabs.Interner()
     samples_t, untouched_t, info = [], [], []
@@ -759,14 +782,17 @@ def cli_case(ctx, spec, wd):
     fo.append([it("hdr:" + ln) for ln in keep if ln in outhdr or any(o.replace(" ", "") == ln.replace(" ", "") for o in outhdr)])
     case = "(" + ", ".join([L(samples_t, "list Z * list obs"), L(untouched_t, "list rawcall * list rawcall"),
                             zcols(fi), zcols(fo)]) + ")"
-    nadjcut = 0
+    nadjcut = nfixed = nhom = 0
     for s_, chrom, a, obs, outs in info:
         if a is None:
             continue
         ph = {p: ps for p, gi, ips, go, phd, ps in obs if phd}
         # neighbouring positions, both phased; in an `adjacent` spec no read links them, so a cut lies between them
+        nfixed += sum(1 for p, gi, ips, go, phd, ps in obs if -1 in gi)
+        nhom += sum(1 for p, gi, ips, go, phd, ps in obs if gi and -1 not in gi and len(set(gi)) == 1)
         nadjcut += sum(1 for x in a if (x + 1) in ph and (x + 2) in ph and (spec.get("adjacent") or ph[x + 1] != ph[x + 2]))
-    return dict(case=case, rep=rep, info=info, nphased=nphased, planted=planted, spec=spec, wd=wd, nadjcut=nadjcut)
+    return dict(case=case, rep=rep, info=info, nphased=nphased, planted=planted, spec=spec, wd=wd, nadjcut=nadjcut,
+                nfixed=nfixed, nhom=nhom, nuntouched=sum(1 for x in info if x[2] is None))
 
 
 def check_cli(ctx, runs, label):
@@ -782,6 +808,11 @@ def check_cli(ctx, runs, label):
             ctx.tally("cli.distrust_genotypes")
         ctx.tally("cli.phased_calls", r["nphased"])
         ctx.tally("cli.adjacent_positions_with_cut_between", r.get("nadjcut", 0))
+        ctx.tally("cli.missing_or_partial_calls_of_processed_samples", r.get("nfixed", 0))
+        ctx.tally("cli.homozygous_calls_of_processed_samples", r.get("nhom", 0))
+        ctx.tally("cli.untouched_sample_chromosomes", r.get("nuntouched", 0))
+        if r["spec"].get("only_first_sample"):
+            ctx.tally("cli.with_--sample")
     trusted = [i for i, r in enumerate(runs) if not r["spec"].get("distrust")]
     distrusted = [i for i, r in enumerate(runs) if r["spec"].get("distrust")]
     f1 = evaluate("C15cli", CLI_CHECKS, [cases[i] for i in trusted], shard=4)
@@ -799,7 +830,11 @@ def check_cli(ctx, runs, label):
             for p, gi, ips, go, ph, ps in obs:
                 if r["spec"].get("distrust"):
                     continue
-                if sorted(gi) != sorted(go):
+                if (-1 in gi or len(set(gi)) < 2) and (ph or go != gi):
+                    msgs.append(f"{chrom}:{p} sample {s}: missing/partial/homozygous input genotype {gi} -> output {go}"
+                                f"{' phased, PS ' + str(ps) if ph else ''}")
+                    sig = sig or "cli:call-without-heterozygous-genotype-changed"
+                elif sorted(gi) != sorted(go):
                     msgs.append(f"{chrom}:{p} sample {s}: input genotype {gi} -> output {go}{' phased' if ph else ''}")
                     sig = sig or (SIG_UNDERFLOW if (s, chrom, p) in r["planted"] else "cli:genotype")
                 elif ph and len(set(gi)) < 2:
